@@ -1,4 +1,5 @@
 import Goflow.Gen.Frame
+import Goflow.Spec.Sflow
 namespace Goflow.Gen.C10
 open Goflow Goflow.Gen Goflow.Gen.Frame Goflow.Spec.Frame
 
@@ -10,11 +11,18 @@ def genCase (allCuts : Bool) : G (List String) := do
     let n ← range 3 8
     let cs ← listOf n (below (b.length + 1))
     pure (b.length :: cs)
+  -- each capture directly through the dissector, and as the raw Ethernet header record of an sFlow flow sample through the
+  -- sFlow pipe (the record's bytes are XDR-padded to a multiple of four on the wire; the dissector must see exactly the capture)
+  let viaSflow (k : Nat) : String :=
+    let dg : Spec.Sflow.Datagram := ⟨[10, 0, 0, 1], 0, 1, 2, [.flow 1 0 7 [1, 2, 3, 4, 5] [.rawHeader 1 1500 0 (b.take k)]]⟩
+    "pkt sf 0a000001 6343 1700000000000000000 " ++ hexOf (Spec.Sflow.encode dg)
+  let sampleCols := " Type~ TimeReceivedNs~ SequenceNum~ SamplingRate~ SamplerAddress~ TimeFlowStartNs~ TimeFlowEndNs~ Bytes~ Packets~ InIf~ OutIf~"
   pure (cuts.flatMap fun k =>
-    ["call parsepacket c0 " ++ hexOf (b.take k), "expect " ++ oracleLine f k (k == b.length)])
+    ["call parsepacket c0 " ++ hexOf (b.take k), "expect " ++ oracleLine f k (k == b.length),
+     viaSflow k, "expect " ++ oracleLine f k (k == b.length) ++ sampleCols])
 
 def gen (n : Nat) : G (List String) := do
-  let mut out : List String := ["cfg c0 none"]
+  let mut out : List String := ["cfg c0 none", "pipe sf sflow c0"]
   for i in [0:n] do
     out := out ++ (← genCase (i % 3 == 0))
   pure out
